@@ -31,7 +31,11 @@ CHECKS = {
              "the 'simple grammar never needs a subquery' clause is proved verb by verb (Pdt/Props/C08Simple.lean: shape_verbs_never, ewise_mutate_never, "
              "arrange_groupby_ok, filter_ok, summarize_ok, with limit_stays_zero / groupBy_stays_empty chaining them along a pipeline) under the local side "
              "conditions that no predicate mentions a window column and the aggregated columns are element-wise, which the grammar guarantees; the tracking of "
-             "column function types along the pipeline is by the front-end correspondence, not a theorem.",
+             "column function types along the pipeline is by the front-end correspondence, not a theorem. Pdt/Props/C08Sql.lean proves the materialisation step "
+             "itself: the SubqueryMarker branch of the SQL compiler (needed-column selection, visible columns first, name de-duplication, outer re-selection) "
+             "leaves the exported frame unchanged for every accumulated SELECT (subquery_transparent, marker_transparent, refines_through_marker) under the "
+             "stated readiness conditions (visible columns needed, defined, distinctly named; aggregate status independent of hidden columns); verbs above the "
+             "marker are covered by the correspondence, not by a theorem.",
         design_ref="DESIGN.md section 5, C08",
         note=NOTE_COMMON + "Modelled, not verified: SQLite execution (oracle only). Known findings are matched by trigger predicates (harness/triggers.py).",
     ),
